@@ -120,8 +120,9 @@ static int bfs_parallel(int phase, const bfs_hist *items, size_t n)
       mc_make_work();
       signal(SIGALRM, SIG_DFL);
       bfs_rec *out = bfs_out + (size_t)w * bfs_out_cap;
+      size_t it = 0;
       for (size_t i = (size_t)w; i < n; i += (size_t)W) {
-        if ((i & 255) == 0 && mc_deadline_hit()) { mc_st->capped = 1; break; }
+        if ((it++ & 63) == 0 && mc_deadline_hit()) { mc_st->capped = 1; break; }     /* every worker looks at the clock */
         const bfs_hist *h = &items[i];
         bfs_ws[w].cur = *h; bfs_ws[w].cur_op = -1; bfs_ws[w].cur_valid = 1;
         bfs_hist_id(h, mc_st->cur_id, sizeof mc_st->cur_id);
